@@ -204,6 +204,9 @@ type tfile struct {
 	path string
 	data string
 	v    int // libraries: the value of v
+	// a file with the language's suffix which the program never imports (a placeholder, notes, data): it is packed and
+	// recovered like every other file and must not keep the program from running, whatever it holds
+	noimport bool
 }
 
 type tree struct {
@@ -245,23 +248,25 @@ func buildTrees() []*tree {
 		return fmt.Sprintf("# library\nv := %d\nfunc f(x) {\n    return x * v\n}\n", v)
 	}
 	specs := map[string][]tfile{
-		"flat": {{"a.ecal", libText(3), 3}, {"b.ecal", libText(5), 5}, {path: "readme.txt", data: "plain text\n"}},
-		"nested": {{"lib/a.ecal", libText(2), 2}, {"lib/sub/b.ecal", libText(3), 3}, {"lib/sub/deep/er/c.ecal", libText(4), 4},
-			{"other/d.ecal", libText(5), 5}, {path: "other/notes.md", data: "# notes\n#### not a marker\n"}},
-		"empty": {{"lib/a.ecal", libText(4), 4}, {path: "empty.dat", data: ""}, {path: "lib/empty.txt", data: ""}, {"z/e.ecal", libText(9), 9}},
-		"binary": {{"lib/a.ecal", libText(6), 6}, {path: "bin/all256.bin", data: allBytes()},
+		"flat": {{path: "a.ecal", data: libText(3), v: 3}, {path: "b.ecal", data: libText(5), v: 5}, {path: "readme.txt", data: "plain text\n"},
+			{path: "draft.ecal", data: "func ( {\n", noimport: true}},
+		"nested": {{path: "lib/a.ecal", data: libText(2), v: 2}, {path: "lib/sub/b.ecal", data: libText(3), v: 3}, {path: "lib/sub/deep/er/c.ecal", data: libText(4), v: 4},
+			{path: "other/d.ecal", data: libText(5), v: 5}, {path: "other/notes.md", data: "# notes\n#### not a marker\n"}},
+		"empty": {{path: "lib/a.ecal", data: libText(4), v: 4}, {path: "empty.dat", data: ""}, {path: "lib/empty.txt", data: ""}, {path: "z/e.ecal", data: libText(9), v: 9},
+			{path: "lib/placeholder.ecal", data: "", noimport: true}, {path: "todo.ecal", data: "# nothing yet\n", noimport: true}},
+		"binary": {{path: "lib/a.ecal", data: libText(6), v: 6}, {path: "bin/all256.bin", data: allBytes()}, {path: "bin/table.ecal", data: allBytes(), noimport: true},
 			// incompressible, so the archive stores it literally: the marker text occurs inside the archive
 			{path: "bin/tricky.bin", data: noise(99, 500) + marker + "PK\x03\x04" + marker[:len(marker)-1] + "\r\n" + noise(98, 500)},
 			{path: "bin/hashes.bin", data: strings.Repeat("####", 64) + "\n"}},
-		"spaces": {{"my lib/b c.ecal", libText(8), 8}, {"my lib/ sub dir /d  e.ecal", libText(10), 10}, {path: "a file.txt", data: " \n "},
-			{" lead.ecal", libText(12), 12}},
-		"large": {{"lib/a.ecal", libText(1), 1}},
+		"spaces": {{path: "my lib/b c.ecal", data: libText(8), v: 8}, {path: "my lib/ sub dir /d  e.ecal", data: libText(10), v: 10}, {path: "a file.txt", data: " \n "},
+			{path: " lead.ecal", data: libText(12), v: 12}},
+		"large": {{path: "lib/a.ecal", data: libText(1), v: 1}},
 	}
 	for i := 0; i < 12; i++ {
 		specs["large"] = append(specs["large"], tfile{path: fmt.Sprintf("data/d%d/blob%02d.bin", i%3, i), data: noise(i+1, 700+i)})
 	}
 	for i := 0; i < 3; i++ {
-		specs["large"] = append(specs["large"], tfile{fmt.Sprintf("mod/m%d.ecal", i), libText(2 + i), 2 + i})
+		specs["large"] = append(specs["large"], tfile{path: fmt.Sprintf("mod/m%d.ecal", i), data: libText(2 + i), v: 2 + i})
 	}
 
 	var res []*tree
@@ -271,7 +276,7 @@ func buildTrees() []*tree {
 		code, k := 1, 0
 		weights := []int{1, 3, 5, 7, 11, 13, 17}
 		for _, f := range tr.files {
-			if !strings.HasSuffix(f.path, ".ecal") {
+			if !strings.HasSuffix(f.path, ".ecal") || f.noimport {
 				continue
 			}
 			v := f.v
